@@ -10,7 +10,7 @@ canonical dump must be the one the Go harness printed from what the real reader 
   ok|O:<hex of ORIGIN, - when nil>|F:<number of features, - when nil>{|<feature>}
   feature = <hex Feature>;<hex Location.Representation>;<Info: - when nil, else hexkey=hexvalue,.. sorted by key>;<positions>;<reverse>
   positions = P<runs> | Eloc | Esyn~<hex of the text Atoi rejected> | Erng~<hex> | X (panic) | S (not called: a digit
-              run of 8 to 19 digits); runs = maximal runs of steps +1 or -1 written a:b (a alone for one position)
+              run of 7 to 19 digits); runs = maximal runs of steps +1 or -1 written a:b (a alone for one position)
   reverse = T | F | E (error) | X (panic) | S
   !panic when ReadGenBank itself panics.
 -/
@@ -32,12 +32,12 @@ def gbRuns : List Int → String
   | [] => ""
   | x :: t => joinWith "," (gbRunsAux t x x 0)
 
-/-- the harness does not call GetPositions on a location with a digit run of 8 to 19 digits -/
+/-- the harness does not call GetPositions on a location with a digit run of 7 to 19 digits -/
 def gbSkipAux : List Nat → Nat → Bool
-  | [], run => 8 ≤ run && run ≤ 19
+  | [], run => 7 ≤ run && run ≤ 19
   | b :: t, run =>
     if 48 ≤ b && b ≤ 57 then gbSkipAux t (run + 1)
-    else (8 ≤ run && run ≤ 19) || gbSkipAux t 0
+    else (7 ≤ run && run ≤ 19) || gbSkipAux t 0
 
 def gbSkipLoc (s : List Nat) : Bool := gbSkipAux s 0
 
